@@ -871,17 +871,18 @@ func (g *C15Gen) candidates(c *C15Contract) []*cand {
 		if r.Intn(5) == 0 {
 			pay = Dna(int64(r.Range(1, 9)))
 		}
-		switch r.Intn(6) {
+		switch r.Intn(8) {
 		case 0, 1:
 			if cd := add("Call", "transfer", g.richOr(h, Dna(300)), pay, to.Addr.Bytes(), amt.Bytes()); cd != nil && len(c.Holders) < 6 {
 				c.Holders = append(c.Holders, to)
 			}
-		case 2:
-			if cd := add("Call", "approve", g.richOr(h, Dna(300)), pay, to.Addr.Bytes(), amt.Bytes()); cd != nil && h == c.Owner && len(c.Allow) < 6 {
-				c.Allow = append(c.Allow, [2]*Actor{h, to})
+		case 2, 6:
+			// approvals by the deployer (who holds the supply) so that transferFrom can succeed later
+			if cd := add("Call", "approve", g.richOr(c.Owner, Dna(300)), pay, to.Addr.Bytes(), amt.Bytes()); cd != nil && len(c.Allow) < 6 {
+				c.Allow = append(c.Allow, [2]*Actor{c.Owner, to})
 			}
-		case 3:
-			if len(c.Allow) > 0 && r.Intn(4) != 0 {
+		case 3, 7:
+			if len(c.Allow) > 0 && r.Intn(5) != 0 {
 				p := c.Allow[r.Intn(len(c.Allow))]
 				add("Call", "transferFrom", g.richOr(p[1], Dna(300)), pay, p[0].Addr.Bytes(), to.Addr.Bytes(), big.NewInt(int64(r.Range(1, 40))).Bytes())
 			} else {
